@@ -167,6 +167,6 @@ example :
     | 2 => rfl
     | _ + 3 => rfl
 
--- GOAL (not proved): fairness - every schedule in which each thread is scheduled often enough completes (proved: the serial schedule completes, every schedule prefix can be extended to a complete one, and results_prefix covers incomplete schedules)
+-- fairness (every fair schedule of sufficient length completes): proved in Props/C20X.lean (`fair_completes`, `fair_infinite_completes`, `round_robin_completes`)
 
 end Embit.Props.C20
